@@ -44,9 +44,12 @@ class Contract:
         pass
 
     def check_declared(self, I, exc):
-        if self.declared_raises is not None:
+        declared = self.declared_raises
+        if declared is None and type(self).post_raise is Contract.post_raise:
+            declared = ()        # no exceptional exit is part of this contract
+        if declared is not None:
             I.e.prove(f'{self.qualname}/raises/declared:{exc.cls}',
-                      exc.cls in self.declared_raises)
+                      exc.cls in declared)
 
     def install(self, reg):
         """Install this contract's summary into a registry (modular calls)."""
@@ -183,10 +186,17 @@ class Lemma(Contract):
         e.prefix, e.pos, e.initial_len = [], 0, 0
         try:
             obs = self.obligations(e)
+            seen_hyps = set()
             for name, hyps, goal in obs:
                 vc = VC(f'lemma/{self.qualname}/{name}', list(hyps), as_bool(goal), [], {}, 'obligation',
                         self.qualname)
                 e.vcs.append(vc)
+                key = tuple(h.get_id() for h in hyps if isinstance(h, z3.ExprRef))
+                if hyps and key not in seen_hyps:
+                    # vacuity guard: the hypotheses of a lemma must be satisfiable
+                    seen_hyps.add(key)
+                    e.vcs.append(VC(f'lemma/{self.qualname}/cover/hypotheses-of/{name}', list(hyps),
+                                    z3.BoolVal(True), [], {}, 'cover', self.qualname))
             axioms = list(e.axioms) + e.strlit_axioms()
             discharge_all(e.vcs, axioms, timeout_ms=self.timeout_ms, also_cvc5=(tier == 'thorough'))
         except CheckerBug as ex:
